@@ -236,8 +236,8 @@ def pushed_not_pulling(s):
 
 
 def phases_have_street(s):
-    """cards are dealt, bets are made, hands are shown down and killed only during a street"""
-    return not (p_deal(s) or p_bet(s) or p_show(s) or p_kill(s)) or s.street_index is not None
+    """cards are dealt, bets are made and hands are shown down only during a street"""
+    return not (p_deal(s) or p_bet(s) or p_show(s)) or s.street_index is not None
 
 
 def someone_live(s):
